@@ -1346,7 +1346,7 @@ impl NTop for N2 { fn from_pool(p: &NPool, rng: &mut Rng) -> Self { (p.node(rng)
 impl NTop for N3 { fn from_pool(p: &NPool, rng: &mut Rng) -> Self { (0..rng.below(5)).map(|_| { let e: &NExpr = &rng.pick(&p.exprs).0; e.clone() }).collect() } }
 impl NTop for N4 { fn from_pool(p: &NPool, rng: &mut Rng) -> Self { (rng.pick(&p.slices).0.clone(), p.node(rng), rng.next() as u32, rng.pick(&p.strings).clone()) } }
 
-/// Finding F61 (fixed by /repo F61COMMIT; regression input that must PASS, run first in shard 0 of every run): the decoder-side interner holds a live
+/// Finding F61 (fixed by /repo 8f43b2a; regression input that must PASS, run first in shard 0 of every run): the decoder-side interner holds a live
 /// value `e` whose inner handle is an `Interned::new_duplicating` copy (public API; "doesn't guarantee deduplication").
 /// Decoding `encode((e, intern(leaf)))` after the tuple was dropped: the decoder interns the inner value it reads (a
 /// fresh allocation, nothing equal is registered), `intern(outer)` returns the live `e` and drops the decoded payload —
